@@ -30,7 +30,7 @@ MPSC = dict(engine="mpsc", scale_quick=4, scale_thorough=30, timeout_quick=600, 
 HMAP = dict(engine="hmap", scale_quick=3, scale_thorough=12, timeout_quick=900, timeout_thorough=6000)
 
 LOAD = dict(engine="load", scale_quick=2, scale_thorough=15, timeout_quick=900, timeout_thorough=6000)
-LOAD_RULE = ("load engine: 120 scripted cases per unit of scale over 1-3 keys, 6-20 macro steps each: loader-backed Get / explicit Refresh callers (goroutines), a gated loader whose every invocation "
+LOAD_RULE = ("load engine (a Clock whose next sample can run a callback places a late Get of the same key between a loader's return and the publication of its result: it must join, not load): 120 scripted cases per unit of scale over 1-3 keys, 6-20 macro steps each: loader-backed Get / explicit Refresh callers (goroutines), a gated loader whose every invocation "
              "the harness finishes when and how it chooses (value / error / not-found / panic), explicit writes (Set, SetIfAbsent, Compute) and invalidations placed before, during and after loads; "
              "every step is an event of the Coq protocol model, which must predict who joins, who loads, what is installed, who is released and each key's value after every step; "
              "distinct_nontrivial = distinct (event kind, join expected?, outcome, superseded?, number of waiters) combinations")
@@ -49,7 +49,9 @@ PROPS = {
                 assumptions=["atomicity of hashmap.Get / Compute (C15)", "no expiry calculator (the read-extension of deadlines is a second atomic access)",
                              "loader-backed Get is covered by the C08/C09 protocol engine", "histories longer than 60 events per key are not searched (none occur)"]),
     "C14": dict(engines=[DRAIN],
-                rule="drain engine: 400 rounds per unit of scale with the DEFAULT executor: 1-6 writers (Set/SetIfAbsent/Invalidate bursts of 1-12 or 100-500 writes) and 0-2 readers on a cache of "
+                rule="drain engine: (a) 60 scripted protocol windows per unit of scale, reached by parking goroutines at hook points: V1 the maintainer parked before its final status "
+                     "transition, a writer pushes, loads 'processing-to-idle' and is parked before acting on it, the maintainer finishes (idle), the writer resumes and must start over; V2 the same with "
+                     "the writer's transition winning; V3 a writer holding a stale 'idle' while another writer runs a whole cycle; (b) 400 rounds per unit of scale with the DEFAULT executor: 1-6 writers (Set/SetIfAbsent/Invalidate bursts of 1-12 or 100-500 writes) and 0-2 readers on a cache of "
                      "maximum 2-21; hook points inside the protocol inject random yields/sleeps (4 perturbation modes); after the calls return NO further cache call is made: only atomic loads of the drain "
                      "status and write-buffer size until quiescent (3 s limit), then status idle, buffer empty, bound restored, every write linked in the policy, OnDeletion count = OnAtomicDeletion count; "
                      "distinct_nontrivial = distinct (writers, readers, perturbation, burst) combinations",
@@ -68,20 +70,21 @@ PROPS = {
     "C16": dict(engines=[MPSC],
                 rule="mpsc engine: every (initial, maximum) capacity pair from {2..128} x {4..128}; sequential random pushes/pops crossing every growth step and back, with producers "
                      "parked between the producer-index CAS and the slot store (hook) and pops issued meanwhile; indices/masks/buffer lengths compared with the extracted model after "
-                     "every call; plus free-running runs of 1-8 producers against the consumer checked for exactly-once, per-producer order and the size bound; "
+                     "every call; an offer made while another producer is parked inside resize (hooks 2-4, producer index odd) must wait and be accepted, for every capacity pair that can grow; free-running producers whose total stays below the maximum (no offer may be refused); "
+                     "plus free-running runs of 1-8 producers against the consumer checked for exactly-once, per-producer order and the size bound; "
                      "distinct_nontrivial = distinct (accepted?, fill bucket, capacity) and stress configurations",
                 assumptions=["sequential consistency of sync/atomic", "the parked-producer schedules have one producer in flight at a time; arbitrary interleavings are exercised free-running only"]),
     "C17": dict(engines=[RING],
                 rule="ring engine: 1-4 producers on one ring, macro schedules of whole adds, adds parked between the tail CAS and the slot store (hook), resumptions and whole drains; "
-                     "status, drained values, head, tail and slot occupancy compared with the extracted small-step model after every macro step; plus the striped buffer under 2-8 free-running "
-                     "recorders and a concurrent drainer checked for delivered-subset-of-recorded, no duplicates, capacity, complete quiescent drain and monotone stripe table; "
+                     "status, drained values, head, tail and slot occupancy compared with the extracted small-step model after every macro step; plus 700 short rounds per unit of scale of a fresh striped buffer (up to 64 stripes) under 2-12 "
+                     "recorders released together, a recorder that has seen an empty stripe slot being held back at a hook point while the others may expand the table, and a concurrent drainer checked for delivered-subset-of-recorded, no duplicates, capacity, complete quiescent drain and monotone stripe table; "
                      "distinct_nontrivial = distinct (status/drain size, number of parked producers) and stripe-table outcomes",
                 assumptions=["sequential consistency of sync/atomic", "CAS failures (status Failed) occur only in the free-running part", "counters do not wrap (2^64 adds)"]),
     "C04": dict(engines=[MAINT, SEQ], rule=MAINT_RULE, assumptions=MAINT_ASSUME),
     "C05": dict(engines=[MAINT], rule=MAINT_RULE, assumptions=MAINT_ASSUME),
     "C06": dict(engines=[SEQ, MAINT], rule=SEQ_RULE + "; OnDeletion vs OnAtomicDeletion multisets compared at quiescence of every case", assumptions=SEQ_ASSUME),
     "C07": dict(engines=[MAINT, SEQ], rule=MAINT_RULE + "; in both engines every Overflow removal is checked against the model's total weight and the current maximum", assumptions=MAINT_ASSUME),
-    "C13": dict(engines=[MAINT], rule=MAINT_RULE + "; clock steps include sub-tick, one tick +-1, whole revolutions of every level and 2^52 ns", assumptions=MAINT_ASSUME),
+    "C13": dict(engines=[MAINT], rule=MAINT_RULE + "; clock steps include sub-tick, one tick +-1, whole revolutions of every level and 2^52 ns; about 6% of Set/SetIfAbsent calls in expiring configurations are STALE writes: the clock sample is taken, then the clock advances (3 ns .. 2^42 ns) and CleanUp runs, then the write proceeds with the old sample (the two-thread interleaving of the property text, produced deterministically through the Clock interface)", assumptions=MAINT_ASSUME),
     "C19": dict(engines=[SEQ], rule=SEQ_RULE + "; at the end of every case the cache is saved, the clock moved (0, 1 ns, exactly the first deadline, just before it, beyond) and loaded into a fresh cache of the same configuration with the same / a larger / a smaller maximum", assumptions=SEQ_ASSUME + ["gob is the identity on Entry"]),
     "C01": dict(engines=[SEQ], rule=SEQ_RULE, assumptions=SEQ_ASSUME),
     "C03": dict(engines=[SEQ], rule=SEQ_RULE + "; the evidence's model_replay_stats.on_expired_* count operations applied to an expired-but-unswept key",
@@ -89,7 +92,10 @@ PROPS = {
     "C10": dict(engines=[SEQ], rule=SEQ_RULE, assumptions=SEQ_ASSUME),
     "C11": dict(engines=[SEQ, LOAD], rule=SEQ_RULE + " | " + LOAD_RULE, assumptions=SEQ_ASSUME + ["in-flight / dedup behaviour of refresh is covered by C08/C09, not here"]),
     "C12": dict(engines=[SEQ], rule=SEQ_RULE, assumptions=SEQ_ASSUME),
-    "C20": dict(engines=[SEQ], rule=SEQ_RULE, assumptions=SEQ_ASSUME + ["concurrent counting (striped adder) is not covered by this engine"]),
+    "C20": dict(engines=[SEQ, dict(LIN, model=False)],
+                rule=SEQ_RULE + " | lin engine (implementation oracle only): after every concurrent case Stats.Evictions and EvictionWeight must equal the number of automatic removals the cache reported, "
+                                "however invalidations and replacements raced with maintenance",
+                assumptions=SEQ_ASSUME + ["hit/miss/load counters are compared sequentially only"]),
     "C18": dict(
         engines=[SKETCH],
         rule="sketch engine: per case one capacity from a boundary list (0..2^16+1), random/skewed key streams, "
